@@ -50,7 +50,9 @@ theorem eval_beq (σ : Env) : ∀ (a b : Sym), a.beq b = true → a.eval σ = b.
     rcases h with ⟨h1, h2⟩ | ⟨h1, h2⟩
     · simp [Sym.eval, ih1 _ h1, ih2 _ h2]
     · simp only [Sym.eval, ih1 _ h1, ih2 _ h2]
-      cases c.eval σ <;> cases d.eval σ <;> simp [Int.max_comm]
+      cases c.eval σ <;> cases d.eval σ <;> simp [bcastI]
+      rename_i x y
+      by_cases hx : x = 1 <;> by_cases hy : y = 1 <;> simp [hx, hy, Int.max_comm]
   | sub a1 a2 ih1 ih2 =>
     intro b h
     cases b <;> simp [Sym.beq] at h
